@@ -219,6 +219,10 @@ func runC03(c *fw.Ctx) {
 		return true
 	}
 
+	valueHistory := map[string][][]byte{}
+	for k, v := range baseModel {
+		valueHistory[k] = append(valueHistory[k], v)
+	}
 	nsteps := 6 + r.Intn(18)
 	if !c.Quick() {
 		nsteps = 6 + r.Intn(40)
@@ -266,6 +270,11 @@ func runC03(c *fw.Ctx) {
 					}
 				} else {
 					v := lab.GenValue(r, step)
+					if h := valueHistory[p]; len(h) > 0 && r.Intn(4) == 0 {
+						v = h[r.Intn(len(h))] // a value this path held earlier in the block (identical nodes re-appear)
+						c.Count("earlier_values_reinserted", 1)
+					}
+					valueHistory[p] = append(valueHistory[p], v)
 					c.Tracef("%s ins %q=%q", t.name, p, v)
 					if _, err := t.t.Insert(util.Path(p), &lab.Val{B: v}); err != nil {
 						fail("%s: Insert(%q) failed: %v", t.name, p, err)
@@ -502,7 +511,7 @@ func init() {
 			return 40000
 		},
 		Run:    runC03,
-		Floors: map[string]int64{"blocks": 20000, "merges": 20000, "discards": 10000, "stale_merges": 2000, "tuple_comparisons": 100000, "child_ops": 100000, "blocks_with_grandchildren": 2000, "merges_via_MergeChanges": 5000, "blocks_saved_and_reread": 15000},
+		Floors: map[string]int64{"blocks": 20000, "merges": 20000, "discards": 10000, "stale_merges": 2000, "tuple_comparisons": 100000, "child_ops": 100000, "blocks_with_grandchildren": 2000, "merges_via_MergeChanges": 5000, "blocks_saved_and_reread": 15000, "earlier_values_reinserted": 20000},
 		Assumptions: []string{
 			"after a parent's root moves (successful merge of a sibling or direct write), the remaining children are stale: only the rejection of their merge and the parent's unchangedness are checked, not their views",
 			"a stale child whose merge would change the parent must be rejected with an error (accepting it silently drops a published sibling)",
